@@ -4,9 +4,11 @@
 //! C08 (whatever the checker accepts must run without an internal failure).
 
 /// Ill-typed expressions that claim to be numeric.
-pub const NUM_FAULTS: [&str; 50] = [
+pub const NUM_FAULTS: [&str; 52] = [
     // an array without subscripts is not a value
     "ARR%", "LARR&", "ARR% + 1", "LEN(SARR$)", "(ARR%)", "Fn1%(LARR&)",
+    // a record is not a value either
+    "REC", "(REC)",
     "LEN(5)", "LEN(ZN#)", "INSTR(\"a\", 2)", "INSTR(2, \"a\")", "INSTR(1, \"abc\", 3)", "INSTR(\"x\", \"abc\", \"b\")", "INSTR(1, 2, \"b\")", "VAL(3)", "ASC(3)", "CVD(3)",
     "\"a\" + 1", "1 + \"a\"", "2 * \"a\"", "\"a\" - 1", "\"a\" / 2", "(NOT \"a\")", "(-\"a\")", "(\"a\" AND 1)", "(1 OR \"a\")", "(1 < \"a\")", "(\"a\" = 1)", "(\"a\" MOD 2)",
     "Fn1%(\"a\")", "Fn1%(1, 2)", "Fn1%(ZS$)", "Fn2%(1, \"b\")", "ARR%(\"a\")", "ARR%(ZS$)", "REC.N + \"a\"", "REC + 1", "REC.S + 1", "UBOUND(5)", "UBOUND(ARR%, \"a\")", "LBOUND(ZN#)",
